@@ -346,7 +346,10 @@ def check(c):
             add('definition', big * (1 - 1e-12) <= got <= want * (1 + 1e-9),
                 'Lnorm(%r, p=%r) = %r, not between the largest magnitude %r and the p-norm %r' % (x, p, got, big, want))
         else:
-            add('definition', close(got, want), 'Lnorm(%r, p=%r) = %r, definition gives %r' % (x, p, got, want))
+            # known sub-case (F49): |x|**p below the normal float range (subnormal or 0): the sum of powers has lost its
+            # precision, or vanished, before the root is taken (the code guards against overflow only)
+            under = 'power-underflows' if (p not in (0, INF) and big > 0 and big ** p < 2.3e-308) else ''
+            add('definition', close(got, want), 'Lnorm(%r, p=%r) = %r, definition gives %r' % (x, p, got, want), under)
         return bad, False
     wx = W(x, w)
     m0, v0, r0 = o_mean(x, w), o_moment(x, w, 2), o_spread(x)
